@@ -666,6 +666,9 @@ class Interp(object):
         try:
             v = ast.literal_eval(node)
         except Exception:
+            if st is not None:
+                # `name + 1` over constant locals
+                return self.const_int_in(node, st)
             self.err(node, 'expected an integer constant')
         if not isinstance(v, int):
             self.err(node, 'expected an integer constant')
